@@ -20,13 +20,19 @@ fn sql_lit(v: &Value) -> String {
 fn load_sql(ncols: usize, kinds: &[&str], rows: &[Value]) -> String {
     let names: Vec<String> = (1..=ncols).map(|j| format!("c{j}")).collect();
     if rows.is_empty() {
-        let cols: Vec<String> = names.iter().zip(kinds).map(|(n, k)| format!("{n} {}", if *k == "i" { "BIGINT" } else { "VARCHAR" })).collect();
+        let cols: Vec<String> = names.iter().zip(kinds).map(|(n, k)| format!("{n} {}", if *k == "i" { "BIGINT" } else if *k == "f" { "DOUBLE" } else { "VARCHAR" })).collect();
         return format!("CREATE TABLE t (ord BIGINT, {});", cols.join(", "));
     }
     let mut vals = Vec::new();
     for (i, r) in rows.iter().enumerate() {
         let cells: Vec<String> = r.as_array().unwrap().iter().zip(kinds).map(|(c, k)| {
-            if c.is_null() && *k == "i" { "CAST(NULL AS BIGINT)".to_string() } else { sql_lit(c) }
+            if c.is_null() && *k == "i" {
+                "CAST(NULL AS BIGINT)".to_string()
+            } else if *k == "f" {
+                if c.is_null() { "CAST(NULL AS DOUBLE)".to_string() } else { format!("CAST({} AS DOUBLE)", c) }
+            } else {
+                sql_lit(c)
+            }
         }).collect();
         vals.push(format!("({i}, {})", cells.join(", ")));
     }
